@@ -134,8 +134,42 @@ def gen_unary(rng, tier, P):
                 yield {"a": name, "li": li, "wrap": w}
 
 
+def gen_spelling(rng, tier, P):
+    """the same assertions through the other spellings of the API: operands by keyword, camelCase alias"""
+    n = 900 if tier == "quick" else 30000
+    names = [x for x in ac.BINARY + ac.UNARY]
+    for k in range(n):
+        name = rng.choice(names)
+        ls, rs = relevant(P, name)
+        case = {"a": name, "li": rng.choice(ls), "wrap": rng.choice(WRAPS), "spelling": ("keyword", "alias")[k % 2]}
+        if name not in ac.UNARY:
+            case["ri"] = rng.choice(rs)
+        else:
+            case["wrap"] = case["wrap"][0]
+        yield case
+
+
+def gen_after_failure(rng, tier, P):
+    """multi-step: call() of a crashing function, then assertions on the results of later call()s"""
+    reprable = [i for i in range(P.n) if P.shape[i] not in ("type", "object", "error")
+                and not (P.shape[i] == "tuple" and any(isinstance(x, type) for x in P.raw[i]))]
+    n = 500 if tier == "quick" else 15000
+    names = ac.ORDER + ac.MEMBER + ac.LENGTH + ac.EQUAL + ac.UNARY
+    for _ in range(n):
+        name = rng.choice(names)
+        ls, rs = relevant(P, name)
+        ls = [i for i in ls if i in reprable] or reprable
+        rs = [i for i in rs if i in reprable] or reprable
+        case = {"a": name, "li": rng.choice(ls), "wrap": rng.choice(("pr", "rp", "pp")), "after_failure": True}
+        if name not in ac.UNARY:
+            case["ri"] = rng.choice(rs)
+        else:
+            case["wrap"] = "p"
+        yield case
+
+
 TEXTS = ["Hello, World!", "hello world", "HELLO WORLD", "Hello", "a\nb", "b\na", "a b", "", "Ab.", "ab", "caat", "a+",
-         "(", "1", "^a.b$", "hello, world", "World", "b"]
+         "(", "1", "^a.b$", "hello, world", "World", "b", "a b ", "a\rb", "a\x0cb", "a\xa0b", " "]
 
 
 def gen_output(rng, tier, P):
@@ -151,12 +185,12 @@ _exec_cache = {}
 
 
 def execution(k):
+    how = ag.EXECUTIONS[k][0]
+    if how.startswith("sandbox"):
+        return ag.make_execution(*ag.EXECUTIONS[k])      # depends on the sandbox state: set it up every time
     if k not in _exec_cache:
         _exec_cache[k] = ag.make_execution(*ag.EXECUTIONS[k])
-    a, printed = _exec_cache[k]
-    if ag.EXECUTIONS[k][0] == "sandbox":
-        printed = a.raw_output      # everything the student program and the calls so far have printed
-    return a, printed
+    return _exec_cache[k]
 
 
 _text_proxy = {}
@@ -174,13 +208,23 @@ def materialise(case, P):
             t = _text_proxy[case["text"]]
         return name, a, t, {"exact": case["exact"]}, {"printed": printed}
     w = case["wrap"]
-    a = P.operand(case["li"], w[0])
-    if name in ac.UNARY:
-        return name, a, None, {}, {}
-    b = P.operand(case["ri"], w[1])
     kw = {}
+    if case.get("spelling"):
+        kw["spelling"] = case["spelling"]
+    if case.get("after_failure"):
+        # multi-step: a call that crashes, then fresh calls whose results are asserted on
+        ac.call("boom")
+        a = ac.call("ident", P.raw[case["li"]]) if w[0] == "p" else P.raw[case["li"]]
+        if name in ac.UNARY:
+            return name, a, None, kw, {}
+        b = ac.call("ident", P.raw[case["ri"]]) if w[1] == "p" else P.raw[case["ri"]]
+    else:
+        a = P.operand(case["li"], w[0])
+        if name in ac.UNARY:
+            return name, a, None, kw, {}
+        b = P.operand(case["ri"], w[1])
     if name in ac.EQUAL:
-        kw = {"exact": case.get("exact", False), "delta": case.get("delta")}
+        kw.update({"exact": case.get("exact", False), "delta": case.get("delta")})
     return name, a, b, kw, {}
 
 
@@ -196,7 +240,7 @@ def describe(case, P):
     if "ri" in case:
         d["r"] = P.specs[case["ri"]]
         d["same_object"] = case["li"] == case["ri"]
-    for k in ("exact", "delta"):
+    for k in ("exact", "delta", "spelling", "after_failure"):
         if k in case:
             d[k] = case[k]
     return d
@@ -208,20 +252,25 @@ def from_description(d):
     name = d["a"]
     if "execution" in d:
         a, printed = ag.make_execution(*d["execution"])
-        if d["execution"][0] == "sandbox":
-            printed = a.raw_output
         t = d["text"]
         if d["wrap"] == "p":
             t = ac.proxy_of(t)
         return name, a, t, {"exact": d["exact"]}, {"printed": printed}
     w = d["wrap"]
+    kw = {"spelling": d["spelling"]} if d.get("spelling") else {}
     lo = ac.build(d["l"])
-    a = ac.proxy_of(lo) if w[0] == "p" else ac.raw(lo)
+    if d.get("after_failure"):
+        ac.call("boom")
+        wrap = lambda o: ac.call("ident", o)
+    else:
+        wrap = ac.proxy_of
+    a = wrap(lo) if w[0] == "p" else ac.raw(lo)
     if "r" not in d:
-        return name, a, None, {}, {}
+        return name, a, None, kw, {}
     ro = lo if d.get("same_object") else ac.build(d["r"])
-    b = ac.proxy_of(ro) if w[1] == "p" else ac.raw(ro)
-    kw = {k: d[k] for k in ("exact", "delta") if k in d} if name in ac.EQUAL else {}
+    b = wrap(ro) if w[1] == "p" else ac.raw(ro)
+    if name in ac.EQUAL:
+        kw.update({k: d[k] for k in ("exact", "delta") if k in d})
     return name, a, b, kw, {}
 
 
@@ -454,7 +503,8 @@ def eqtest_stream(rng, tier, P, driver, res):
 
 def all_cases(rng, tier, P):
     return itertools.chain(corpus_cases(P), gen_unary(rng, tier, P), gen_output(rng, tier, P),
-                           gen_equal_options(rng, tier, P), gen_binary(rng, tier, P))
+                           gen_equal_options(rng, tier, P), gen_spelling(rng, tier, P),
+                           gen_after_failure(rng, tier, P), gen_binary(rng, tier, P))
 
 
 def corpus_cases(P):
